@@ -123,6 +123,13 @@ class CuckooSystem(System):
                                     dict(cls=cls, capacity=cap, bucket=bs, swaps=sw, auto=auto, alt=alt, nfp=nfp,
                                          depth=depth, budget=budget, cost=budget)
                                 )
+            # longer eviction chains (a chain of >= 3 kicks can come back to a slot it already kicked)
+            if tier == "quick":
+                for cap, bs, auto, alt in ((2, 1, False, "other"), (2, 1, True, "other"), (3, 1, False, "other"), (2, 2, False, "other"),
+                                           (1, 2, False, "same")):
+                    for sw in (3, 4):
+                        cfgs.append(dict(cls=cls, capacity=cap, bucket=bs, swaps=sw, auto=auto, alt=alt, nfp=2 * cap * bs + 2,
+                                         depth=cap * bs + 4, budget=budget, cost=budget))
             # keys whose raw fingerprint is 0 (0 is the empty-slot marker of the export)
             for cap, bs, auto, alt in ((2, 2, True, "other"), (3, 1, True, "other"), (3, 2, False, "other"), (1, 2, True, "other"),
                                        (3, 1, True, "pair")):
@@ -532,6 +539,16 @@ class CuckooSystem(System):
         after = vec()
         if before != after:
             bad("C19", "cuckoo.queries_do_not_mutate", {"before": repr(before)[:300], "after": repr(after)[:300]})
+        bb0 = call(bytes, f)
+        if bb0[0] == "ok" and not cfg.get("by_rate"):
+            fl = call(lambda: _cls(cfg).frombytes(bb0[1], hash_function=make_hash(cfg)))
+            if fl[0] == "ok":
+                fl[1].fingerprint_size = max(1, f.fingerprint_size)
+                probes = [k for k, _ in keys] + ["never-added"]
+                a1 = [call(f.check, k) for k in probes] + [call(f.load_factor)]
+                a2 = [call(fl[1].check, k) for k in probes] + [call(fl[1].load_factor)]
+                if a1 != a2:
+                    bad("C19", "cuckoo.answers_independent_of_earlier_queries", {"live": repr(a1)[:300], "fresh_load": repr(a2)[:300]})
         if self.cur_depth <= cfg.get("twin_depth", 2):
             div = twin_divergence(self, cfg, st, lambda q: ro(q.impl),
                                   lambda x: (_table(x.impl, counting), x.impl.elements_added, x.impl.capacity))
